@@ -14,6 +14,10 @@ TEMPS = [5, 6, 7, 28, 29, 30, 31]
 SAVED = [8, 9] + list(range(18, 28))
 
 
+SPECIAL_NAMES = ["T1", "S2", "A3", "RA", "SP", "Zero", "X5", "FP", "Gp", "tP", "S11", "x32", "t7", "s12", "ra2", "a8", "x031",
+                 "ret", "add", "li", "ecall", "Jal", "NOP", "mv", "j", "b", "call", "word", "text", "main_", "_start", "a", "x", "t", "s"]
+
+
 def rename_items(items, sigma, rho):
     out = []
     for it in items:
@@ -75,7 +79,10 @@ def run(ctx):
     for p in progs:
         items = [C13.parse_line(l) for l in p]
         labels = sorted(set(it[1] for it in items if it[0] == "label"))
-        fresh = rng.sample(["__return__"] + ["zz%d" % i for i in range(200)] + ["Q_%d_x" % i for i in range(50)] + ["a%db" % i for i in range(50)] + ["_", "__a", "x32", "t7", "s12", "ra2"], len(labels))
+        fresh = rng.sample(["__return__"] + ["zz%d" % i for i in range(200)] + ["Q_%d_x" % i for i in range(50)] + ["a%db" % i for i in range(50)] + ["_", "__a"], len(labels))
+        # names that only look like registers or mnemonics (other case, one character more or less) are labels too
+        special = rng.sample(SPECIAL_NAMES, len(SPECIAL_NAMES))
+        fresh = [special.pop() if special and rng.random() < 0.2 else f for f in fresh]
         rho = dict(zip(labels, fresh)) if rng.random() < 0.8 else {}
         called = sorted(set(it[2][-1] for it in items if it[0] == "inst" and it[1] in ("jal", "call") and it[2] and it[2][-1] in labels))
         if rho and called and rng.random() < 0.4 and "__return__" not in rho.values():
@@ -119,7 +126,7 @@ def run(ctx):
     ctx.coverage.update(
         evaluations=2 * len(cases) + 2 * len(stores), distinct_nontrivial=len(cases),
         rule="each program (conforming + injected violation, random flow, stack programs, multi-label/multi-return functions) is linted as "
-             "written and after a random injective renaming of all labels (incl. names that look like registers: t7, s12, x32) and a random "
+             "written and after a random injective renaming of all labels (incl. names that look like registers or mnemonics: t7, s12, x32, T1, RA, Zero, ret, add, j) and a random "
              "permutation of t0-t6 and of s0-s11; diagnostics compared as (severity, kind, statement index, operand value mapped through the "
              "renaming, occurrence) for the start and end of the range; distinct = distinct programs",
         samples=[dict(original=cases[0][4][0][:300], renamed=cases[0][5][0][:300])], pairs_compared=compared,
